@@ -320,7 +320,8 @@ func (h *History) desc() string {
 	ws = append(ws, fmt.Sprintf("t%d", h.descN))
 	sep := " "
 	if h.cfg.MultiLineDesc && rapid.IntRange(0, 5).Draw(t, "mld") == 0 {
-		sep = "\n"
+		// a line break, sometimes with blanks before or after it
+		sep = rapid.SampledFrom([]string{"\n", "\n", "\n", " \n", "\t\n", "\n ", "  \n"}).Draw(t, "mldSep")
 	}
 	return strings.Join(ws, sep)
 }
@@ -509,6 +510,17 @@ func (h *History) step(act int) {
 			rapid.IntRange(0, 7).Draw(t, "twin") == 0 {
 			prev := h.ds[n-1]
 			d.Desc = prev.Desc
+			if h.cfg.MultiLineDesc && rapid.IntRange(0, 2).Draw(t, "twinLines") == 0 {
+				// two-line descriptions with a common first line, one of them with a blank before the line break,
+				// whose second lines order the other way round than the blank and the line break do
+				first := rapid.SampledFrom(descWords).Draw(t, "twinFirst")
+				x, y := "Aa", "Bb"
+				if rapid.Bool().Draw(t, "twinSwap") {
+					x, y = y, x
+				}
+				h.ds[n-1].Desc = first + rapid.SampledFrom([]string{" ", "\t", "  "}).Draw(t, "twinBlank") + "\n" + x + " " + prev.Desc
+				d.Desc = first + "\n" + y + " " + prev.Desc
+			}
 			switch rapid.IntRange(0, 2).Draw(t, "twinKind") {
 			case 0:
 				bs = append(append([]ref.Booking{}, prev.Bookings...), bs...)
